@@ -355,6 +355,12 @@ func (c08) Run(sc *Scenario) *Verdict {
 					continue
 				}
 				v.probe("strict-no-error-expected")
+				if ex.Err != nil && len(weff.ReachableLoose(weff.RootNode(), sc.Opts.Skip).Bad) > 0 {
+					// an unresolvable reference lies behind a reference to a document as a whole ("#"),
+					// which the expansion may or may not come to follow (model.ReachableLoose)
+					v.probe("error-behind-a-whole-document-self-reference")
+					continue
+				}
 				if ex.Err != nil {
 					return v.fail("spurious-error", "plan %d %v, order key %d: every $ref the expansion has to follow is resolvable, but it returned: %v", pi, plan, k, ex.Err)
 				}
@@ -455,6 +461,10 @@ func c08Reuse(sc *Scenario, v *Verdict) *Verdict {
 					return v.fail("missed-error-with-reused-cache", "call %d (%s) on a cache already used by %d earlier call(s), order key %d: no error although $ref %q at %s cannot be resolved (%v); plan %v",
 						oi, op.Ptr, oi, k, h.Ref, h.Node.ID(), reach.BadErrs[0], plan)
 				}
+				continue
+			}
+			if res.Err != nil && len(weff.ReachableLoose(start, false).Bad) > 0 {
+				v.probe("error-behind-a-whole-document-self-reference")
 				continue
 			}
 			if res.Err != nil {
